@@ -3,7 +3,7 @@
 cd "$(dirname "$0")/.."
 P=$1; N=$2; R=${3:-4}; TIER=${4:-quick}
 S=/tmp/seed$R-$P/$N; W=/tmp/wt$R-$P
-git -C $W checkout -q -- . ; git -C $W apply $S/patch.diff || exit 2
+git -C $W checkout -q -- . ; git -C $W checkout -q --detach $(git -C /repo rev-parse HEAD); git -C $W apply $S/patch.diff 2>/dev/null || git -C $W apply -3 $S/patch.diff || exit 2
 d=$(mktemp -d /var/tmp/seedtry.XXXX)
 t0=$(date +%s)
 PYMODES_SRC=$W/src VERIF_EVIDENCE_DIR=$d ./check $P --tier $TIER > $d/log 2>&1; rc=$?
